@@ -65,6 +65,14 @@ SPECS = [
          methods={("DT", "replace"): dict(coq="dt_midnight", args=[],
                                           fixed={"hour": "0", "minute": "0", "second": "0", "microsecond": "0"},
                                           ret="DT")}),
+    # the forward fetch of a chunk is a parameter; its items have integer starts (assumption carried by
+    # the equivalence theorem: true of everything _occurrence_to_interval builds)
+    dict(name="g_recur_fetch_reverse", file="calgebra/recurrence.py", cls="RecurringPattern", func="_fetch_reverse",
+         kind="gen", res=True, types={"FREQ": "freq"}, enums=FREQ,
+         params=[("self_freq", "FREQ"), ("fetch_forward", "Z -> Z -> list ivl"), ("start", "OZ"), ("end", "OZ")],
+         selfattrs={"freq": ("self_freq", "FREQ")},
+         calls={"self._fetch_forward": ("fetch_forward", ["Z", "Z"], "LIST")},
+         assume_not_none=["ivl.start"]),
 ]
 
 
